@@ -20,10 +20,21 @@ static void again_at_exit(void) { res_t r; memset(&r, 0, sizeof r); if (g_again)
  * registered context, and ordinary use afterwards must go on exactly as if the call had not been made (next IDs, context lookup, handler calls) */
 static int g_cb, g_cl, g_ce; static unsigned char g_id1;
 static void *count_ctx(spif_charptr_t b, void *s) { if (*b == SPIFCONF_BEGIN_CHAR) g_cb++; else if (*b == SPIFCONF_END_CHAR) g_ce++; else g_cl++; return s; }
-static void conf_before(void) { spifconf_init_subsystem(); g_id1 = spifconf_register_context((spif_charptr_t) "first", count_ctx); }
+static char *g_found, g_found_copy[600];      /* what an earlier, successful file lookup handed out: it stays what it was */
+static void conf_before(void)
+{
+    spifconf_init_subsystem(); g_id1 = spifconf_register_context((spif_charptr_t) "first", count_ctx);
+    const char *td = getenv("VERIF_SCRATCH"); char dir[400], path[500], name[40];
+    snprintf(dir, sizeof dir, "%s", td ? td : "/tmp"); snprintf(name, sizeof name, "c16f-%d", (int) getpid()); snprintf(path, sizeof path, "%s/%s", dir, name);
+    FILE *f = fopen(path, "w"); if (f) { fputs("x\n", f); fclose(f); }
+    g_found = (char *) spifconf_find_file((spif_charptr_t) name, (spif_charptr_t) dir, (spif_charptr_t) NULL);
+    if (g_found) snprintf(g_found_copy, sizeof g_found_copy, "%s", g_found);
+    unlink(path);
+}
 static int conf_after(void)
 {
     static char line[] = "second some attribute";
+    if (g_found && strcmp(g_found, g_found_copy)) return 7;
     if (g_id1 != 1) return 1;
     if (spifconf_register_context((spif_charptr_t) "second", count_ctx) != 2) return 2;
     if (spifconf_register_builtin("zzb", stub_builtin) != 7) return 3;
@@ -73,7 +84,7 @@ static void n_case(uint64_t idx, void *ctx)
     } else if (WIFEXITED(st) && WEXITSTATUS(st) == 0 && got == (ssize_t) sizeof r && r.returned) {
         if (!r.ret_ok) FAIL(site, "model:failure-value", shape, "returned something other than the stated failure value %s", c->val);
         if (r.arg_changed) FAIL(site, "model:argument-changed", shape, "argument %d was modified by the failing call", r.arg_changed);
-        if (r.aftermath) FAIL(site, "model:effect", shape, "ordinary use of the configuration module after the refused call differs from use without it (step %d: 2 next context ID, 3 next builtin ID, 4 next file-state index, 5 context lookup and handler calls, 6 next context-state index)", r.aftermath);
+        if (r.aftermath) FAIL(site, "model:effect", shape, "ordinary use of the configuration module after the refused call differs from use without it (step %d: 2 next context ID, 3 next builtin ID, 4 next file-state index, 5 context lookup and handler calls, 6 next context-state index, 7 the result of an earlier file lookup)", r.aftermath);
         if (r.alloc_delta) FAIL(site, "model:allocated", shape, "the failing call changed the heap by %ld bytes", r.alloc_delta);
     } else FAIL(site, "crash:exit", shape, "the call ended the process with status 0x%x", st);
     mc_nontrivial();
